@@ -321,6 +321,7 @@ def run_c17(pid, tier, seed, replay):
     """C17: the access table is regenerated from /repo by lockscan and checked inside Coq."""
     import subprocess, json
     from checklib import (sh, VERIF, COQ, GOENV, Lock)
+    from checklib import REPO as REPO_DIR
     t0 = time.time()
     res = build_all(need_go=False)
     problems = []
@@ -342,7 +343,7 @@ def run_c17(pid, tier, seed, replay):
         if rc != 0:
             problems.append("lockscan does not build:\n" + out[-1500:])
         else:
-            rc, report = sh([os.path.join(BUILD, "lockscan"), "-dir", "/repo", "-coq", os.path.join(work, "Table.v")], timeout=600)
+            rc, report = sh([os.path.join(BUILD, "lockscan"), "-dir", REPO_DIR, "-coq", os.path.join(work, "Table.v")], timeout=600)
             m = re.search(r"UNJUSTIFIED (\d+)", report)
             unjust = int(m.group(1)) if m else -1
             for mm in re.finditer(r"COUNT (\w+)\s+(\d+)", report):
@@ -365,7 +366,7 @@ def run_c17(pid, tier, seed, replay):
         # counted as a discharged obligation.
         env = dict(GOENV, CGO_ENABLED="1")
         import shutil as _sh
-        _sh.copyfile("/repo/go.sum", os.path.join(VERIF, "harness", "racework", "go.sum"))
+        _sh.copyfile(os.path.join(REPO_DIR, "go.sum"), os.path.join(VERIF, "harness", "racework", "go.sum"))
         reps = "3" if tier == "thorough" else "1"
         rcr, race_out = sh(["go", "test", "-race", "-count=" + reps, "-timeout", "15m", "."],
                            cwd=os.path.join(VERIF, "harness", "racework"), env=env, timeout=1800)
